@@ -837,6 +837,8 @@ class Interp:
                 if attr in base.fields:
                     return base.fields[attr]
                 raise Unsupported('exception attribute %s' % attr)
+            if base.tag == 'class' and (base.name + '.' + attr) in self.w.consts:
+                return self.lookup(base.name + '.' + attr)
             if base.tag == 'class':
                 c = self.w.find_method(base.name, attr)
                 if c is not None:
